@@ -148,13 +148,6 @@ Next == \/ \E c \in DOMAIN calls : Internal(c) \/ DbComplete(c)
         \/ \E t \in Tops : Start(t) \/ TopReturn(t)
         \/ Terminated
 
-InitOf(sh) == /\ shape = sh
-              /\ pid = [n \in DOMAIN sh.kind |-> 0]
-              /\ saving = [n \in DOMAIN sh.kind |-> "none"]
-              /\ nrows = [n \in DOMAIN sh.kind |-> 0]
-              /\ calls = [p \in {} |-> 0]
-              /\ started = {} /\ nextid = 1
-
 \* every task is blocked on a database call or on an event (the driver acts only then)
 Quiescent == \A c \in DOMAIN calls :
                /\ calls[c].ph # "ready"
@@ -163,6 +156,20 @@ Quiescent == \A c \in DOMAIN calls :
                     /\ \A m \in SetOf(StagesOf(NodeOf(c), calls[c].ph)[calls[c].i]) : calls[Append(c, m)].ph = "done")
                /\ ~(calls[c].ph = "top" /\ calls[Append(c, shape.tops[c[1]])].ph = "done")
 InFlight == {c \in DOMAIN calls : calls[c].ph \in {"db", "upddb"}}
+
+\* the schedules the conformance driver explores: database completions and late callers only when every task is blocked
+NextQ == \/ \E c \in DOMAIN calls : Internal(c)
+         \/ \E t \in Tops : TopReturn(t)
+         \/ Quiescent /\ (\E c \in DOMAIN calls : DbComplete(c))
+         \/ Quiescent /\ (\E t \in Tops : Start(t))
+         \/ Terminated
+
+InitOf(sh) == /\ shape = sh
+              /\ pid = [n \in DOMAIN sh.kind |-> 0]
+              /\ saving = [n \in DOMAIN sh.kind |-> "none"]
+              /\ nrows = [n \in DOMAIN sh.kind |-> 0]
+              /\ calls = [p \in {} |-> 0]
+              /\ started = {} /\ nextid = 1
 
 ---------------------------------------------------------------------------
 (* Shapes *)
